@@ -68,7 +68,7 @@ func trParen(l trLines) trLines {
 }
 
 var trLeanKeywords = map[string]bool{
-	"end": true, "at": true, "from": true, "open": true, "in": true, "do": true, "then": true, "fun": true, "have": true,
+	"rec": true, "end": true, "at": true, "from": true, "open": true, "in": true, "do": true, "then": true, "fun": true, "have": true,
 	"show": true, "by": true, "match": true, "with": true, "if": true, "else": true, "let": true, "where": true,
 	"structure": true, "instance": true, "namespace": true, "section": true, "theorem": true, "def": true, "local": true,
 	"private": true, "class": true, "inductive": true, "export": true, "import": true, "variable": true, "universe": true,
